@@ -44,15 +44,26 @@ local macro "tie_simp" "[" ls:Lean.Parser.Tactic.simpLemma,* "]" : tactic =>
     bid id is unused (`ViewWF.bidIds`/`bidSeq`); `hL`: `L` is what `GetBidsByBidder` returns (the
     bidder's bids of ALL auctions), of which those of this auction are the ones in its view. -/
 theorem tie_PlaceBid (c : Ctx) (bidder : Acc) (aid : Nat) (t : BidType) (price : Dec) (denom : Denom) (amt : Int)
-    (hacc : validAcc bidder = true) (L : List Bid) (v : AView) (hv : c.s.views[aid]? = some v)
+    (hacc : validAcc bidder = true) (v : AView) (hv : c.s.views[aid]? = some v)
     (hfresh : ∀ x ∈ v.bids, x.id ≠ v.bidSeq + 1)
-    (hL : (L.filter (fun b => decide ((b.auction : Int) = (v.a.id : Int)))) = v.bids.filter (·.bidder == bidder)) :
+    (hL : ((rdBidsByBidder c.s bidder).filter (fun b => decide ((b.auction : Int) = (v.a.id : Int)))) = v.bids.filter (·.bidder == bidder))
+    (hid : v.a.id = aid) :
     placeBid c bidder aid t price denom amt =
-       Go.runPlan c aid v (Gen.PlaceBid ⟨bidder, aid, t, price, denom, amt⟩ v.a false ((v.bidSeq + 1 : Nat) : Int) L
-          ((lookupAllowed v.allowed bidder).getD default) (lookupAllowed v.allowed bidder).isNone).2 := by
+       Go.runPlan c aid v (Gen.PlaceBid ⟨bidder, aid, t, price, denom, amt⟩
+          (rdAuction c.s) (rdNextBidId c.s) (rdBidsByBidder c.s) (rdAllowed c.s)).2 := by
   unfold placeBid Gen.PlaceBid
+  have hA : rdAuction c.s (aid : Int) = (v.a, false) := by simp [rdAuction, hv]
+  have hB : rdAllowed c.s (aid : Int) bidder =
+      ((lookupAllowed v.allowed bidder).getD default, (lookupAllowed v.allowed bidder).isNone) := by
+    simp [rdAllowed, hv]
+  have hB' : rdAllowed c.s (v.a.id : Int) bidder =
+      ((lookupAllowed v.allowed bidder).getD default, (lookupAllowed v.allowed bidder).isNone) := by
+    rw [hid]; exact hB
+  have hN : rdNextBidId c.s (v.a.id : Int) = ((v.bidSeq + 1 : Nat) : Int) := by
+    rw [hid]; simp [rdNextBidId, hv]
   simp only [Ctx.view, hv, tie_ValidateBatchWorthBid, tie_ValidateBatchManyBid, tie_ValidateFixedPriceBid,
-    tie_ConvertToPayingAmount, tie_ConvertToSellingAmount, hL, apply_ite Prod.snd, apply_ite (runPlan c aid v)]
+    tie_ConvertToPayingAmount, tie_ConvertToSellingAmount, hL, apply_ite Prod.snd, apply_ite (runPlan c aid v),
+    hA, hB', hN, Int.toNat_natCast, hB]
   have hsb : ∀ b : Bid, b.id = v.bidSeq + 1 → setBid v.bids b = v.bids ++ [b] :=
     fun b hb => setBid_fresh _ _ (by rw [hb]; exact hfresh)
   cases t with
@@ -83,7 +94,7 @@ theorem tie_PlaceBid (c : Ctx) (bidder : Acc) (aid : Nat) (t : BidType) (price :
         | error e => tie_simp [hfee, hmk, hb]; try grind
         | ok c2 =>
         cases hh : c2.hook "BeforeBidPlaced" [rNat aid, rNat (v.bidSeq + 1), rAcc bidder, rBidType BidType.fixed, rInt price, rNat denom, rInt amt] <;>
-        tie_simp [hfee, hmk, hb, hh, hsb] <;> try grind
+        tie_simp [hfee, hmk, hb, hh, hsb, hid] <;> try grind
   | worth =>
     simp only [Int.toNat_natCast, hacc, okbind]
     obtain ⟨q, hq⟩ : ∃ q, Bid.toSelling ⟨aid, v.bidSeq+1, bidder, .worth, price, denom, amt, false⟩ v.a.payDenom = q := ⟨_, rfl⟩
@@ -110,7 +121,7 @@ theorem tie_PlaceBid (c : Ctx) (bidder : Acc) (aid : Nat) (t : BidType) (price :
         | error e => tie_simp [hfee, hmk, hb]; try grind
         | ok c2 =>
         cases hh : c2.hook "BeforeBidPlaced" [rNat aid, rNat (v.bidSeq + 1), rAcc bidder, rBidType BidType.worth, rInt price, rNat denom, rInt amt] <;>
-        tie_simp [hfee, hmk, hb, hh, hsb] <;> try grind
+        tie_simp [hfee, hmk, hb, hh, hsb, hid] <;> try grind
   | many =>
     simp only [Int.toNat_natCast, hacc, okbind]
     obtain ⟨q, hq⟩ : ∃ q, Bid.toSelling ⟨aid, v.bidSeq+1, bidder, .many, price, denom, amt, false⟩ v.a.payDenom = q := ⟨_, rfl⟩
@@ -137,36 +148,48 @@ theorem tie_PlaceBid (c : Ctx) (bidder : Acc) (aid : Nat) (t : BidType) (price :
         | error e => tie_simp [hfee, hmk, hb]; try grind
         | ok c2 =>
         cases hh : c2.hook "BeforeBidPlaced" [rNat aid, rNat (v.bidSeq + 1), rAcc bidder, rBidType BidType.many, rInt price, rNat denom, rInt amt] <;>
-        tie_simp [hfee, hmk, hb, hh, hsb] <;> try grind
+        tie_simp [hfee, hmk, hb, hh, hsb, hid] <;> try grind
 
 /-- an unknown auction id: both reject without any effect -/
 theorem tie_PlaceBid_noAuction (c : Ctx) (bidder : Acc) (aid : Nat) (t : BidType) (price : Dec) (denom : Denom) (amt : Int)
-    (hv : c.s.views[aid]? = none) (a : Auction) (n : Int) (L : List Bid) (ab : Allowed) (e : Bool) :
+    (hv : c.s.views[aid]? = none) (n : Int → Int) (L : Acc → List Bid) (ab : Int → Acc → Allowed × Bool) :
     placeBid c bidder aid t price denom amt = c.fail ∧
-    (Gen.PlaceBid ⟨bidder, aid, t, price, denom, amt⟩ a true n L ab e).2 = (true, []) := by
+    (Gen.PlaceBid ⟨bidder, aid, t, price, denom, amt⟩ (rdAuction c.s) n L ab).2 = (true, []) := by
   constructor
   · unfold placeBid
     simp only [Ctx.view, hv]
     rfl
-  · simp [Gen.PlaceBid]
+  · have hA : rdAuction c.s (aid : Int) = (default, true) := by simp [rdAuction, hv]
+    simp [Gen.PlaceBid, hA]
 
 /-- **ModifyBid.**  `hpos`: recorded bids have positive amount and price (`BidWF`), which is what
     makes the difference of the two ceilings non-negative (Go would panic in `sdk.NewCoin`
     otherwise; the model says `.panic` there). -/
 theorem tie_ModifyBid (c : Ctx) (bidder : Acc) (aid bidId : Nat) (price : Dec) (denom : Denom) (amt : Int)
     (hacc : validAcc bidder = true) (v : AView) (hv : c.s.views[aid]? = some v)
-    (hpos : ∀ b ∈ v.bids, 0 < b.amt ∧ 0 < b.price) :
+    (hpos : ∀ b ∈ v.bids, 0 < b.amt ∧ 0 < b.price)
+    (hbauc : ∀ b ∈ v.bids, b.auction = v.a.id) :
     modifyBid c bidder aid bidId price denom amt =
-      Go.runPlan c aid v (Gen.ModifyBid ⟨bidder, aid, bidId, price, denom, amt⟩ v.a false
-        ((v.bids.find? (·.id == bidId)).getD default) (v.bids.find? (·.id == bidId)).isNone) := by
+      Go.runPlan c aid v (Gen.ModifyBid ⟨bidder, aid, bidId, price, denom, amt⟩ (rdAuction c.s) (rdBid c.s)) := by
   unfold modifyBid Gen.ModifyBid
-  simp only [Ctx.view, hv, okbind, hacc, apply_ite (runPlan c aid v)]
+  have hA : rdAuction c.s (aid : Int) = (v.a, false) := by simp [rdAuction, hv]
+  have hfind : v.bids.find? (fun b => decide ((b.id : Int) = (bidId : Int))) = v.bids.find? (·.id == bidId) := by
+    congr 1
+    funext b
+    show decide ((b.id : Int) = (bidId : Int)) = (b.id == bidId)
+    rw [Bool.eq_iff_iff]
+    simp [Int.ofNat_inj]
+  have hBid : rdBid c.s (aid : Int) (bidId : Int) =
+      ((v.bids.find? (·.id == bidId)).getD default, (v.bids.find? (·.id == bidId)).isNone) := by
+    simp only [rdBid, viewAt_nat, hv, hfind]
+  simp only [Ctx.view, hv, okbind, hacc, apply_ite (runPlan c aid v), hA, hBid]
   cases hf : v.bids.find? (·.id == bidId) with
   | none =>
     tie_simp []
     grind
   | some bid =>
     have hp := hpos bid (List.mem_of_find?_eq_some hf)
+    have hau := hbauc bid (List.mem_of_find?_eq_some hf)
     have hsb : ∀ b' : Bid, b'.id = bid.id → setBid v.bids b' = v.bids.map (fun x => if x.id == bidId then b' else x) :=
       fun b' hb => setBid_found _ _ _ _ hf hb
     simp only [Option.getD_some, Option.isNone_some, pure_bind]
@@ -177,14 +200,15 @@ theorem tie_ModifyBid (c : Ctx) (bidder : Acc) (aid bidId : Nat) (price : Dec) (
     simp only [bidCoin_amt, bidCoin_denom, hd]
     clear hd hf
     obtain ⟨bauc, bidid, bbidder, bt, bprice, bdenom, bamt, bm⟩ := bid
-    simp only at hsb hnn hp ⊢
+    simp only at hsb hnn hp hau ⊢
+    subst hau
     by_cases hden : bdenom = denom
     case neg =>
       cases bt <;> tie_simp [hden] <;> grind
     subst hden
     cases bt with
     | fixed =>
-      cases hh : c.hook "BeforeBidModified" [rNat bauc, rNat bidid, rAcc bbidder, rBidType BidType.fixed, rInt price, rNat bdenom, rInt amt] <;>
+      cases hh : c.hook "BeforeBidModified" [rNat v.a.id, rNat bidid, rAcc bbidder, rBidType BidType.fixed, rInt price, rNat bdenom, rInt amt] <;>
       tie_simp [hh, hsb] <;> grind
     | worth =>
       by_cases hd : amt - bamt > 0
@@ -193,9 +217,9 @@ theorem tie_ModifyBid (c : Ctx) (bidder : Acc) (aid bidId : Nat) (price : Dec) (
         cases hb : c.bankCall .send (.user bidder) (.pay aid) [⟨bdenom, amt - bamt⟩] with
         | error e => tie_simp [hb, hsb, mkCoins, hd, e1, e2]; try grind
         | ok c1 =>
-          cases hh : c1.hook "BeforeBidModified" [rNat bauc, rNat bidid, rAcc bbidder, rBidType BidType.worth, rInt price, rNat bdenom, rInt amt] <;>
+          cases hh : c1.hook "BeforeBidModified" [rNat v.a.id, rNat bidid, rAcc bbidder, rBidType BidType.worth, rInt price, rNat bdenom, rInt amt] <;>
           tie_simp [hb, hh, hsb, mkCoins, hd, e1, e2] <;> try grind
-      · cases hh : c.hook "BeforeBidModified" [rNat bauc, rNat bidid, rAcc bbidder, rBidType BidType.worth, rInt price, rNat bdenom, rInt amt] <;>
+      · cases hh : c.hook "BeforeBidModified" [rNat v.a.id, rNat bidid, rAcc bbidder, rBidType BidType.worth, rInt price, rNat bdenom, rInt amt] <;>
         tie_simp [hh, hsb, hd] <;> try grind
     | many =>
       by_cases hd : d > 0
@@ -204,23 +228,24 @@ theorem tie_ModifyBid (c : Ctx) (bidder : Acc) (aid bidId : Nat) (price : Dec) (
         cases hb : c.bankCall .send (.user bidder) (.pay aid) [⟨v.a.payDenom, d⟩] with
         | error e => tie_simp [hb, hsb, mkCoins, hd, e1, e2]; try grind
         | ok c1 =>
-          cases hh : c1.hook "BeforeBidModified" [rNat bauc, rNat bidid, rAcc bbidder, rBidType BidType.many, rInt price, rNat bdenom, rInt amt] <;>
+          cases hh : c1.hook "BeforeBidModified" [rNat v.a.id, rNat bidid, rAcc bbidder, rBidType BidType.many, rInt price, rNat bdenom, rInt amt] <;>
           tie_simp [hb, hh, hsb, mkCoins, hd, e1, e2] <;> try grind
       · by_cases hd0 : d < 0
         · -- the model panics here; the guards that passed exclude it (`hnn`)
           tie_simp [hsb, hd, hd0]
           grind
-        · cases hh : c.hook "BeforeBidModified" [rNat bauc, rNat bidid, rAcc bbidder, rBidType BidType.many, rInt price, rNat bdenom, rInt amt] <;>
+        · cases hh : c.hook "BeforeBidModified" [rNat v.a.id, rNat bidid, rAcc bbidder, rBidType BidType.many, rInt price, rNat bdenom, rInt amt] <;>
           tie_simp [hh, hsb, hd, hd0] <;> try grind
 
 theorem tie_ModifyBid_noAuction (c : Ctx) (bidder : Acc) (aid bidId : Nat) (price : Dec) (denom : Denom) (amt : Int)
-    (hv : c.s.views[aid]? = none) (a : Auction) (b : Bid) (e : Bool) :
+    (hv : c.s.views[aid]? = none) (b : Int → Int → Bid × Bool) :
     modifyBid c bidder aid bidId price denom amt = c.fail ∧
-    Gen.ModifyBid ⟨bidder, aid, bidId, price, denom, amt⟩ a true b e = (true, []) := by
+    Gen.ModifyBid ⟨bidder, aid, bidId, price, denom, amt⟩ (rdAuction c.s) b = (true, []) := by
   constructor
   · unfold modifyBid
     simp only [Ctx.view, hv]
     rfl
-  · simp [Gen.ModifyBid]
+  · have hA : rdAuction c.s (aid : Int) = (default, true) := by simp [rdAuction, hv]
+    simp [Gen.ModifyBid, hA]
 
 end Fundraising
